@@ -12,6 +12,7 @@ import copy
 import hashlib
 import json
 import os
+import re
 from typing import Any
 
 from sim import docgen, driver, faults, rng
@@ -233,6 +234,11 @@ def run_spec(args: dict, sandbox: str) -> dict:
             violations.append({"kind": "harness-base-exception", "locus": res["exception"], "detail": res["exception_msg"]})
     elif res["exception"] is not None:
         locus = f"{res['exception']}@{genrun.tb_locus(res['tb'])}"
+        if res["exception"] == "RecursionError":
+            # where the interpreter's stack happens to run out is not a stable locus; the PHASE is (load / parse / build)
+            tb = res["tb"]
+            phase = "build" if re.search(r", in (build|_build_\w+)\n", tb) else "parse" if ", in from_dict\n" in tb else "load" if "_load_yaml_or_json" in tb else "other"
+            locus = f"RecursionError@{phase}"
         violations.append({"kind": "crash", "locus": locus, "detail": f"unhandled {res['exception']}: {res['exception_msg']}\n{res['tb'][-1200:]}"})
         outcome = "crash"
     else:
